@@ -558,7 +558,7 @@ public:
           name_list, description, values), value_(v) {}
 
     void GetValue(value_type &v) const override
-    { assert(value_.size()); v = value_.back(); }
+    { v = value_.empty() ? value_type() : value_.back(); }  // 'opt=?' before any value
     void SetValue(
         typename internal::OptionHelper<value_type>::Arg v) override
     { value_.push_back(v); }
